@@ -46,6 +46,35 @@ class SGraph:
             self._nw[label] = z3.Function('%s_nw_%s' % (self.name, label), so.U(), R)
         return self._nw[label]
 
+    def reach(self, u, x):
+        f = z3.Function('%s_REACH_%d' % (self.name, so.Mode.gen), so.U(), so.U(), B)
+        return f(u, x)
+
+    def edge_list(self):
+        """G.edges(): every edge once (for an undirected graph in one of its two orientations), no repetition"""
+        if getattr(self, '_edges', None) is None:
+            P = so.Pair()
+            n = fresh(self.name + '_m', I)
+            a = fresh(self.name + '_edges', z3.ArraySort(I, P))
+            posf = z3.Function('%s_epos_%d' % (self.name, so.Mode.gen), P, I)
+            memf = z3.Function('%s_emem_%d' % (self.name, so.Mode.gen), P, B)
+            l = SList(P, n=n, a=a, name=self.name + '_edges')
+            l.posf = lambda e: posf(e)
+            l.memberf = lambda e: memf(e)
+            U = so.U()
+            ax = [l.wellformed(),
+                  so.forall_idx(n, lambda i: And(memf(a[i]), posf(a[i]) == i)),
+                  so.forall(P, lambda e: Implies(memf(e), And(0 <= posf(e), posf(e) < n, a[posf(e)] == e,
+                                                             self.adjf(P.fst(e), P.snd(e)))))]
+            if self.directed:
+                ax.append(so.forall2(U, U, lambda u, v: memf(so.mkpair(u, v)) == self.adjf(u, v)))
+            else:
+                ax.append(so.forall2(U, U, lambda u, v: Implies(self.adjf(u, v), And(
+                    Or(memf(so.mkpair(u, v)), memf(so.mkpair(v, u))),
+                    Implies(u != v, Not(And(memf(so.mkpair(u, v)), memf(so.mkpair(v, u)))))))))
+            self._edges, self._edge_axioms = l, ax
+        return self._edges
+
     def nbrs(self, u):
         l = SList(so.U(), n=self.degf(u), a=z3.Lambda([_i()], self.nbrf(u, _i())), name='nbrs')
         l.posf = lambda x: self.nidxf(u, x)
@@ -106,6 +135,59 @@ class SGraph:
 
 def _i():
     return z3.Int('lam_i')
+
+
+_REACH = {}
+
+
+def reach_fun(adj_sort):
+    """REACH(adjacency)(u, x): x can be reached from u by a non-empty directed path (assumed networkx contract:
+    nx.descendants(H, u) = {x != u | REACH(H)(u, x)},  nx.ancestors(H, t) = {x != t | REACH(H)(x, t)})"""
+    key = (str(adj_sort), so.Mode.gen)
+    if key not in _REACH:
+        _REACH[key] = z3.Function('REACH_%d' % so.Mode.gen, adj_sort, so.U(), so.U(), B)
+    return _REACH[key]
+
+
+class SGraphB:
+    """a networkx Graph/DiGraph being BUILT by the analysed code: node set, edge set (ordered pairs; both
+    orientations for an undirected graph), node / edge attribute maps"""
+    kind = 'graphb'
+
+    def __init__(self, directed, name='H', nodes=None, adj=None):
+        U, P = so.U(), so.Pair()
+        self.directed, self.name = directed, name
+        self.nodes = nodes if nodes is not None else fresh(name + '_nodes', z3.ArraySort(U, B))
+        self.adj = adj if adj is not None else fresh(name + '_adj', z3.ArraySort(P, B))
+        self.nattr, self.eattr = {}, {}
+
+    def snap(self):
+        c = SGraphB(self.directed, self.name, self.nodes, self.adj)
+        c.nattr, c.eattr = dict(self.nattr), dict(self.eattr)
+        return c
+
+    def havoc(self):
+        U, P = so.U(), so.Pair()
+        self.nodes = fresh(self.name + '_nodes', z3.ArraySort(U, B))
+        self.adj = fresh(self.name + '_adj', z3.ArraySort(P, B))
+        for k in list(self.nattr):
+            self.nattr[k] = fresh(self.name + '_na_' + k, self.nattr[k].sort())
+        for k in list(self.eattr):
+            self.eattr[k] = fresh(self.name + '_ea_' + k, self.eattr[k].sort())
+
+    def wellformed(self):
+        U = so.U()
+        return And(so.forall2(U, U, lambda a, b: Implies(self.adj[so.mkpair(a, b)], And(self.nodes[a], self.nodes[b]))),
+                   so.forall2(U, U, lambda a, b: Implies(self.reach(a, b), And(self.nodes[a], self.nodes[b]))))
+
+    def has_edge(self, u, v):
+        return self.adj[so.mkpair(u, v)]
+
+    def reach(self, u, x):
+        return reach_fun(self.adj.sort())(self.adj, u, x)
+
+    def order(self):
+        return so.cnt(self.nodes, BoolVal(True))
 
 
 class Untyped:
@@ -591,6 +673,40 @@ class Lib:
                 u = z3.Const('deg_u', U)
                 return SDict(U, I, dom=z3.K(U, BoolVal(True)), val=z3.Lambda([u], G.degf(u)), name='degree')
             raise Unsupported('dict(...)')
+        if name in ('max', 'min') and len(args) == 1 and isinstance(args[0], tuple) and args[0] and args[0][0] == 'scc':
+            H = args[0][1]
+            keyf = kw.get('key')
+            if not (isinstance(keyf, PyConst) and keyf.v == ('builtin', 'len')):
+                run.oblige('site', 'largest-scc-by-len', lineno, BoolVal(False))
+            order = H.order() if isinstance(H, SGraphB) else H.N
+            run.oblige('safety', 'max-of-nonempty', lineno, order >= 1)
+            C = SSet(so.U(), name='scc')
+            U = so.U()
+            inH = (lambda x: H.nodes[x]) if isinstance(H, SGraphB) else (lambda x: BoolVal(True))
+            # assumed contract: C is a strongly connected component (mutual reachability class) of maximal size
+            run.assume(so.exists(U, lambda x: C.dom[x]))
+            run.assume(so.forall(U, lambda x: Implies(C.dom[x], inH(x))))
+            run.assume(so.forall2(U, U, lambda x, y: Implies(And(C.dom[x], inH(y)),
+                                                           C.dom[y] == Or(x == y, And(H.reach(x, y), H.reach(y, x))))))
+            # (maximality / minimality of the size is recorded, not axiomatised: the estimator's contract demands 'max')
+            run.ghost['largest_scc'] = C
+            run.ghost.setdefault('scc_of', []).append((H, C) if name == 'max' else (None, C))
+            return C
+        if name == 'max' and len(args) == 1 and isinstance(args[0], tuple) and args[0] and args[0][0] == 'genexp':
+            e, env2 = args[0][1], args[0][2]
+            g = e.generators[0] if len(e.generators) == 1 else None
+            if g is not None and ast.unparse(e.elt) == 'len(%s)' % ast.unparse(g.target) and not g.ifs:
+                src = run.ev(g.iter, env2)
+                if isinstance(src, tuple) and src and src[0] == 'cc':
+                    H = src[1]
+                    f = z3.Function('LARGEST_CC_%d' % so.Mode.gen, H.adj.sort(), H.nodes.sort(), I)
+                    m = f(H.adj, H.nodes)
+                    order = H.order()
+                    run.oblige('safety', 'max-of-nonempty', lineno, order >= 1)
+                    run.assume(And(m >= 1, m <= order))
+                    run.ghost['largest_cc'] = (H, m)
+                    return m
+            raise Unsupported('max over a generator at line %d' % lineno)
         if name == 'Counter':
             v = args[0] if args else None
             if isinstance(v, tuple) and v and v[0] == 'values':
@@ -601,7 +717,7 @@ class Lib:
                 run.assume(so.forall(d.vsort, lambda x: If(C.dom[x], C.val[x] >= 1, C.val[x] == 0)))
                 # the same fact in a trigger-friendly direction: every value that occurs is a key of the Counter
                 run.assume(so.forall(d.ksort, lambda k: Implies(d.dom[k], C.dom[d.val[k]]),
-                                     pats=(lambda k: [d.val[k]]) if not so.is_finite_sort(d.ksort) else None))
+                                     pats=(lambda k: [d.val[k]]) if (not so.is_finite_sort(d.ksort) and z3.is_const(d.val)) else None))
                 if z3.is_true(z3.simplify(so.forall(d.ksort, lambda k: d.dom[k]))) or d.name == 'degree':
                     C.count_of = d.val
                     if so.Mode.finite:
@@ -733,6 +849,27 @@ class Lib:
             run.assume(Implies(x == 0, y == 1))
             run.assume(Implies(x < 0, y < 1))
             return y
+        if name in ('nx.DiGraph', 'nx.Graph', 'networkx.DiGraph', 'networkx.Graph') and not args:
+            directed = name.endswith('DiGraph')
+            u = Untyped('DiGraph' if directed else 'Graph')
+            u.default_factory = lambda: SGraphB(directed, name='H', nodes=z3.K(so.U(), BoolVal(False)), adj=z3.K(so.Pair(), BoolVal(False)))
+            return u
+        if name in ('nx.descendants', 'nx.ancestors'):
+            H, node = args[0], coerce(args[1], so.U())
+            if isinstance(H, SGraphB):
+                run.oblige('safety', 'node-in-graph', lineno, H.nodes[node])
+            elif not isinstance(H, SGraph):
+                raise Unsupported('%s of %r' % (name, H))
+            dom = fresh('reachset', z3.ArraySort(so.U(), B))
+            if name == 'nx.descendants':
+                run.assume(so.forall(so.U(), lambda x: dom[x] == And(x != node, H.reach(node, x))))
+            else:
+                run.assume(so.forall(so.U(), lambda x: dom[x] == And(x != node, H.reach(x, node))))
+            return SSet(so.U(), dom=dom, name='reachset')
+        if name == 'nx.strongly_connected_components':
+            return ('scc', args[0])
+        if name == 'nx.connected_components':
+            return ('cc', args[0])
         if name == 'heapq.heappush':
             raise Unsupported('heapq outside the myQueue contract')
         if name == 'EoN.EoNError':
@@ -750,6 +887,12 @@ class Lib:
             return h(run, recv, args, kw, lineno)
         if isinstance(recv, SGraph):
             return self.graph_method(run, recv, attr, args, kw, lineno)
+        if isinstance(recv, SGraphB):
+            return self.graphb_method(run, recv, attr, args, kw, lineno)
+        if isinstance(recv, Untyped) and recv.what == 'set':
+            if attr == 'union' and len(args) == 1 and isinstance(args[0], SSet):
+                return args[0].snap()
+            raise Unsupported('method %s on an empty set() at line %d' % (attr, lineno))
         if isinstance(recv, tuple) and recv and recv[0] == 'gnodes' and attr == '__call__':
             return recv
         if isinstance(recv, SList):
@@ -824,6 +967,63 @@ class Lib:
             raise Unsupported('set method %s' % attr)
         raise Unsupported('method %s on %r at line %d' % (attr, recv, lineno))
 
+    def graphb_method(self, run, H, attr, args, kw, lineno):
+        U = so.U()
+        if attr == 'add_nodes_from':
+            v = args[0]
+            if isinstance(v, tuple) and v and v[0] == 'gnodes':
+                H.nodes = z3.K(U, BoolVal(True))       # every value of the node sort is a node of G
+                return NONE
+            raise Unsupported('add_nodes_from(%r)' % (v,))
+        if attr == 'add_node':
+            u = coerce(args[0], U)
+            H.nodes = z3.Store(H.nodes, u, BoolVal(True))
+            for k, val in kw.items():
+                if not z3.is_expr(val):
+                    raise Unsupported('node attribute value %r' % (val,))
+                arr = H.nattr.get(k)
+                if arr is None:
+                    arr = fresh(H.name + '_na_' + k, z3.ArraySort(U, val.sort()))
+                H.nattr[k] = z3.Store(arr, u, val)
+            return NONE
+        if attr == 'add_edge':
+            if len(args) == 1 and z3.is_expr(args[0]) and args[0].sort() == so.Pair():
+                u, v = so.Pair().fst(args[0]), so.Pair().snd(args[0])
+            else:
+                u, v = coerce(args[0], U), coerce(args[1], U)
+            H.nodes = z3.Store(z3.Store(H.nodes, u, BoolVal(True)), v, BoolVal(True))
+            H.adj = z3.Store(H.adj, so.mkpair(u, v), BoolVal(True))
+            if not H.directed:
+                H.adj = z3.Store(H.adj, so.mkpair(v, u), BoolVal(True))
+            for k, val in kw.items():
+                if not z3.is_expr(val):
+                    raise Unsupported('edge attribute value %r' % (val,))
+                arr = H.eattr.get(k)
+                if arr is None:
+                    arr = fresh(H.name + '_ea_' + k, z3.ArraySort(so.Pair(), val.sort()))
+                arr = z3.Store(arr, so.mkpair(u, v), val)
+                if not H.directed:
+                    arr = z3.Store(arr, so.mkpair(v, u), val)
+                H.eattr[k] = arr
+            return NONE
+        if attr == 'remove_node':
+            x = coerce(args[0], U)
+            run.oblige('safety', 'node-in-graph', lineno, H.nodes[x])
+            H.nodes = z3.Store(H.nodes, x, BoolVal(False))
+            old = H.adj
+            new = fresh(H.name + '_adj', old.sort())
+            run.assume(so.forall2(U, U, lambda a, b: new[so.mkpair(a, b)] == And(old[so.mkpair(a, b)], a != x, b != x)))
+            H.adj = new
+            return NONE
+        if attr == 'has_node':
+            v = args[0]
+            return H.nodes[v] if (z3.is_expr(v) and v.sort() == U) else BoolVal(False)
+        if attr == 'has_edge':
+            return H.adj[so.mkpair(coerce(args[0], U), coerce(args[1], U))]
+        if attr in ('order', 'number_of_nodes'):
+            return H.order()
+        raise Unsupported('graph-builder method %s at line %d' % (attr, lineno))
+
     def unwrap(self, lst, v):
         if isinstance(lst.esort, TupleSpec):
             return lst.esort.unpack(v)
@@ -850,4 +1050,9 @@ class Lib:
             return G.degf(coerce(args[0], so.U()))
         if attr == 'degree' and not args:
             return ('gdegree', G)
+        if attr == 'edges' and not args:
+            l = G.edge_list()
+            for ax in G._edge_axioms:
+                run.assume(ax)
+            return l
         raise Unsupported('graph method %s at line %d' % (attr, lineno))
